@@ -191,8 +191,8 @@ def state_diff(before, after):
 class ambient:
     """run a block under non-default (but legal) interpreter-wide settings and restore them afterwards"""
 
-    def __init__(self, int_digits=None, recursion=None, prec=None):
-        self.int_digits, self.recursion, self.prec = int_digits, recursion, prec
+    def __init__(self, int_digits=None, recursion=None, prec=None, debug_logging=False):
+        self.int_digits, self.recursion, self.prec, self.debug_logging = int_digits, recursion, prec, debug_logging
 
     def __enter__(self):
         import decimal
@@ -205,6 +205,16 @@ class ambient:
             sys.setrecursionlimit(self.recursion)
         if self.prec is not None:
             decimal.getcontext().prec = self.prec
+        if self.debug_logging:
+            import logging
+
+            root = logging.getLogger()
+            self.log_state = (root.level, logging.root.manager.disable)
+            self.handler = logging.NullHandler()
+            self.handler.setLevel(logging.DEBUG)
+            root.addHandler(self.handler)
+            root.setLevel(logging.DEBUG)
+            logging.disable(logging.NOTSET)
         return self
 
     def __exit__(self, *a):
@@ -214,6 +224,13 @@ class ambient:
         sys.set_int_max_str_digits(self.old[0])
         sys.setrecursionlimit(self.old[1])
         decimal.getcontext().prec = self.old[2]
+        if self.debug_logging:
+            import logging
+
+            root = logging.getLogger()
+            root.removeHandler(self.handler)
+            root.setLevel(self.log_state[0])
+            logging.disable(self.log_state[1])
         return False
 
 
